@@ -2801,7 +2801,9 @@ struct Explorer {
       }
       for (size_t ci = 0; ci < r.cmds.size(); ++ci) {
         const RunCmd& c = r.cmds[ci];
-        if (!c.console || !c.finished || c.unreaped || c.output.empty() || fin_ev[ci] < 0) continue;
+        // (also a console command that ninja abandoned with the build -- a start failure elsewhere -- and that ran on to its end
+        // while ninja waited for it: it owned the terminal until then)
+        if (!c.console || !c.finished || c.output.empty() || fin_ev[ci] < 0) continue;
         size_t cpos = T.find(c.output);
         if (cpos == string::npos) continue;
         for (size_t ni = 0; ni < r.cmds.size(); ++ni) {
